@@ -414,9 +414,10 @@ def contract_a2r(case):
             return ("fail", "align_to_ref/degapped-row-not-input", f"{msg0}: {rows}")
     longest = max(len(s) for s in seqs)
     cands = [ref] if ref != "longest" else [nm for nm in names if len(data[nm]) == longest]
-    first = None
+    nl = NLETTERS[mt]
+    verdicts = []
     for rn in cands:
-        bad = None
+        bads = []
         for nm in names:
             if nm == rn:
                 continue
@@ -428,17 +429,16 @@ def contract_a2r(case):
             want = (prow[rn], prow[nm])
             if got != want:
                 # ties are left open: another equally scoring alignment of the pair is accepted
-                nl = NLETTERS[mt]
                 a, b = sp.path_score(got[0], got[1], S, d, e, nl), sp.path_score(want[0], want[1], S, d, e, nl)
                 if abs(a - b) <= TOL and a != sp.NEG:
                     continue
-                bad = ("fail", f"align_to_ref/projection/{gap_pattern(want[0], want[1], got)}",
-                       f"{msg0}: result {rows}; projected onto ({rn},{nm}) = {got}, pairwise alignment is {want}")
-                break
-        if bad is None:
+                bads.append(("fail", f"align_to_ref/projection/{gap_pattern(want[0], want[1], got)}",
+                             f"{msg0}: result {rows}; projected onto ({rn},{nm}) = {got}, pairwise alignment is {want}"))
+        if not bads:
             return ("ok", len({len(s) for s in seqs}) > 1)
-        first = first or bad
-    return first
+        verdicts.append(bads)
+    # ref='longest' with several longest sequences: report against the candidate that explains the result best
+    return min(verdicts, key=len)[0]
 
 
 # ------------------------------------------------------------------------------------------------ progressive
